@@ -16,7 +16,7 @@ Undecided: that grouping keeps exactly one survivor per key for every mix of kin
 import ast
 from ..core import walk_own, norm, AnalysisError
 from ..report import Ob, Floor
-from ..rules import writer, threshold, twin, direction, globalstate, gens, plumb, count, mergetable, prio
+from ..rules import writer, threshold, twin, direction, globalstate, gens, plumb, count, mergetable, prio, loops
 from ..abseval import Evaluator, Sym, Opaque
 from .. import exceptions
 
@@ -134,6 +134,8 @@ def check(ctx, tier):
     obs += ctx.attempt(lambda c, cl: count.class_iteration_agreement(c, cl)[0], ctx, "D-j", default=[])
     obs += ctx.attempt(lambda c, cl: mergetable.invariants(c, cl, which=('one-per-key', 'property'))[0], ctx, "D-k", default=[])
     obs += ctx.attempt(lambda c, cl: prio.check(c, cl)[0], ctx, "D-l", default=[])
+    obs += ctx.attempt(loops.every_yielded_item_is_kept, ctx, "D-m", "shexer.core.shexing.class_shexer:ClassShexer._build_shapes", "shape", default=[])
+    obs += ctx.attempt(loops.one_shape_per_class, ctx, "D-n", default=[])
     exceptions.apply(obs)
     floors = [Floor("threshold filter comparisons", len(tf.filters), 3), Floor("candidate construction sites", n_sites, 3),
               Floor("selection/grouping functions", n_sel, 5)]
